@@ -135,27 +135,25 @@ def check_array_cursor(P, ctx):
 
 
 def check_mirrors(P, ctx):
-    rule = 'C11.mirror'
-    pairs = [
-        ('List', 'iter_init', 'iter_last', {'head': 'tail', 'tail': 'head'}),
-        ('List', 'iter_next', 'iter_prev', {'List_Next': 'List_Prev', 'List_Prev': 'List_Next'}),
-        ('Tree', 'iter_init', 'iter_last', {'Tree_Left': 'Tree_Right', 'Tree_Right': 'Tree_Left'}),
-        ('Tree', 'iter_next', 'iter_prev', {'Tree_Left': 'Tree_Right', 'Tree_Right': 'Tree_Left'}),
-    ]
-    for T, a, b, swap in pairs:
-        fa, fb = P.fn(P.slot(T, 'Iter', a)), P.fn(P.slot(T, 'Iter', b))
-        ctx.fn(fa)
-        ctx.fn(fb)
-        if T == 'Tree':
-            from . import inline
-            spine = {n: P.fn(n) for n in ('Tree_Maximum',) if P.fn(n, required=False)}
-            fa, fb = inline.splice_into(fa, spine), inline.splice_into(fb, spine)
-        ca = mirror.canon_body(fa, swap)
-        cb = mirror.canon_body(fb, {})
-        d = mirror.first_difference(ca, cb)
-        ctx.check(d is None, rule, '%s.%s<->%s' % (T, a, b), site(fb), 'the backward function is the mirror image of the forward one (%s)' % ', '.join('%s<->%s' % kv for kv in sorted(swap.items()) if kv[0] < kv[1]),
-                  ['first difference: %s' % d] if d else None)
-    ctx.floor(rule, 4)
+    """the cursor functions of the five containers, evaluated on small instances (absmodel): forwards they yield the elements in order
+    and end with Terminal, backwards the reverse"""
+    from . import absmodel
+    rule = 'C11.cursor-walk'
+    for T in ('Array', 'List', 'Tuple', 'Table', 'Tree'):
+        try:
+            bad, unsup, ncase = absmodel.eval_cursor_walk(P, T)
+        except absmodel.Unsupported as x:
+            bad, unsup, ncase = {}, str(x), 0
+        ctx.stats['paths'] += ncase
+        for m in ('iter_init', 'iter_next', 'iter_last', 'iter_prev'):
+            fn = P.fn(P.slot(T, 'Iter', m))
+            ctx.fn(fn)
+            if unsup and not bad.get(m):
+                ctx.undecided(rule, '%s.%s' % (T, m), site(fn), 'the cursor function leaves the evaluated fragment: ' + unsup)
+            else:
+                ctx.check(bad[m] is None, rule, '%s.%s' % (T, m), site(fn), 'on every small instance (0..3 elements; Table: every occupancy of up to 4 slots; Tree: every shape of up to '
+                          '4 nodes) the forward walk yields the elements in order then Terminal, the backward walk the reverse', [bad[m]] if bad[m] else None)
+    ctx.floor(rule, 20)
 
 
 def check_direction(P, ctx):
@@ -229,47 +227,129 @@ def check_slice_bound(P, ctx):
     ctx.floor(rule, 2)
 
 
+class ZipMismatch(Exception):
+    pass
+
+
+def _boxed_int(e, it):
+    """the integer inside a `$I(expr)` / `$(Int, expr)` stack literal"""
+    for x in ir.walk(e):
+        if x[0] == 'compound' and isinstance(x[1], str) and x[1].strip() == 'struct Int' and x[2][0] == 'initlist' and len(x[2][1]) == 1:
+            return it.ev(x[2][1][0])
+    raise ZipMismatch('a key that is not an Int literal')
+
+
+def eval_zip(P):
+    """Zip over n = 0..3 abstract inputs of lengths 0..3 (every combination), evaluated with cint: len is the minimum; the forward walk
+    (iter_init, iter_next ... Terminal) yields, for k = 0..min-1, the tuple of every input's k-th element; the backward walk
+    (iter_last, iter_prev ...) yields the same tuples in reverse.  Returns {function key: first mismatch or None}, unsupported, count."""
+    from . import cint
+    import itertools
+    TERM = 7777
+    SELF = ('ep', 'self', 0)
+    fns = {m: P.fn(P.slot('Zip', 'Iter', m)) for m in ('iter_init', 'iter_next', 'iter_last', 'iter_prev')}
+    fns['len'] = P.fn(P.slot('Zip', 'Len', 'len'))
+    bad = {k: None for k in ('len', 'iter_init', 'iter_next', 'iter_last', 'iter_prev')}
+    unsup = None
+    ncase = 0
+    for n in range(0, 4):
+        for lens in itertools.product(range(0, 4), repeat=n):
+            m = min(lens) if n else 0
+            atoms = {('global', 'Terminal'): TERM, ('global', 'NULL'): 0,
+                     ('elem', 'self', 0, 'iters'): ('ep', 'itup', 0), ('elem', 'self', 0, 'values'): ('ep', 'vtup', 0),
+                     ('elem', 'itup', 0, 'items'): ('ep', 'its', 0), ('elem', 'vtup', 0, 'items'): ('ep', 'vals', 0)}
+            for i in range(n + 1):
+                atoms[('elem', 'its', i, None)] = 300 + i if i < n else TERM
+                atoms[('elem', 'vals', i, None)] = 9999 if i < n else TERM
+
+            def E(i, k):
+                return 1000 * (i + 1) + k if 0 <= k < lens[i] else TERM
+
+            def call(nm, e, it, lens=lens, n=n):
+                if nm in ('len', 'Tuple_Len'):
+                    x = it.ev(e[2][0])
+                    if x == ('ep', 'itup', 0):
+                        return n
+                    if isinstance(x, int) and 300 <= x < 300 + n:
+                        return lens[x - 300]
+                    raise ZipMismatch('len of something that is no input')
+                if nm in ('iter_init', 'iter_last', 'iter_next', 'iter_prev'):
+                    x = it.ev(e[2][0])
+                    if not (isinstance(x, int) and 300 <= x < 300 + n):
+                        raise ZipMismatch('%s of something that is no input' % nm)
+                    i = x - 300
+                    if nm == 'iter_init':
+                        return E(i, 0)
+                    if nm == 'iter_last':
+                        return E(i, lens[i] - 1)
+                    c = it.ev(e[2][1])
+                    if not (isinstance(c, int) and c // 1000 == i + 1 and 0 <= c % 1000 < lens[i]):
+                        raise ZipMismatch('input %d is stepped from a cursor that is not one of its own' % i)
+                    return E(i, c % 1000 + (1 if nm == 'iter_next' else -1))
+                if nm == 'get':
+                    x = it.ev(e[2][0])
+                    if x != ('ep', 'vtup', 0):
+                        raise cint.NoEval('get on %r' % (x,))
+                    k = _boxed_int(e[2][1], it)
+                    if not 0 <= k < n:
+                        raise ZipMismatch('reads position %d of the current tuple of %d' % (k, n))
+                    return it.atoms[('elem', 'vals', k, None)]
+                raise cint.NoEval('call %s' % nm)
+
+            def run(key, args):
+                it = cint.CInt(P, fns[key], atoms=atoms, call=call, recurse=True, max_steps=3000)
+                it.atoms = atoms
+                return it.run(args)
+
+            def positions():
+                return [atoms[('elem', 'vals', i, None)] for i in range(n)]
+            label = 'inputs of lengths %s' % (list(lens),)
+            key, prevk = 'len', None
+            try:
+                r = run('len', [SELF])
+                ncase += 1
+                if r[0] == 'stuck':
+                    unsup = unsup or 'Zip_Len, %s: %s' % (label, r[1])
+                elif (r[0], r[1]) != ('ret', m):
+                    bad['len'] = bad['len'] or '%s: len is %s, the shortest input has %d' % (label, r[1], m)
+                for first, step, order in (('iter_init', 'iter_next', list(range(m))), ('iter_last', 'iter_prev', list(range(m - 1, -1, -1)))):
+                    key = first
+                    args = [SELF]
+                    for k in order + [None]:
+                        r = run(key, args)
+                        ncase += 1
+                        if r[0] == 'stuck':
+                            unsup = unsup or 'Zip %s, %s: %s' % (key, label, r[1])
+                            break
+                        got = 'Terminal' if r[1] == TERM else (positions() if r[1] == ('ep', 'vtup', 0) else 'something else (%s)' % (r[1],))
+                        want = 'Terminal' if k is None else [E(i, k) for i in range(n)]
+                        if got != want:
+                            bad[key] = bad[key] or '%s, %s: yields %s, expected %s' % (label, 'first step' if key == first else 'after position %s' % prevk,
+                                                                                     got if isinstance(got, str) else 'elements %s' % [g_ % 1000 if g_ != 9999 else '?' for g_ in got],
+                                                                                     want if isinstance(want, str) else 'every input at position %d' % k)
+                            break
+                        prevk = k
+                        key = step
+                        args = [SELF, ('ep', 'vtup', 0)]
+            except ZipMismatch as x:
+                bad[key] = bad[key] or '%s: %s' % (label, x)
+    return bad, unsup, ncase
+
+
 def check_zip(P, ctx):
     rule = 'C11.zip-shortest'
-    fn = P.fn(P.slot('Zip', 'Len', 'len'))
-    g = P.cfg(fn)
-    ctx.fn(fn)
-    N = util.Norm(P, fn, inline=False)
-    upd = [n for n in g.live() if n['kind'] == 'stmt' and n['expr'] is not None and N.canon(n['expr'])[0] == 'assign' and N.canon(n['expr'])[3][0] == 'cond']
-    ok = len(upd) == 1
-    if ok:
-        e = N.canon(upd[0]['expr'])
-        m, rhs = e[2], e[3]
-        others = [x for x in ir.walk(rhs) if x[0] == 'local' and x != m]
-        o = others[0] if others else None
-        try:
-            ok = o is not None and all(loops.ev(rhs, {m: a, o: b}) == min(a, b) for a, b in ((1, 2), (2, 1), (3, 3), (0, 5)))
-        except NoEval:
-            ok = False
-        # loop over all remaining inputs
-        conds = [x for x in g.live() if x['kind'] == 'cond' and loops.counted_loop(g, None, x) is not None]
-        ok = ok and len(conds) == 1
-        if ok:
-            lp = loops.counted_loop(g, None, conds[0])
-            bnd = [y for y in ir.walk(lp['cond']) if y[0] == 'local' and y != lp['iv']]
-            try:
-                ok = bool(bnd) and all(loops.iterate(lp, {bnd[0]: k}) == list(range(1, k)) for k in range(1, 5)) and loops.step_on_every_iteration(g, lp)
-            except NoEval:
-                ok = False
-    ctx.check(ok, rule, 'Zip_Len', site(fn), 'the length of a zip is the minimum over all inputs (running minimum over inputs 1..n-1 starting from input 0)')
-    for m, cur in (('iter_init', 'iter_init'), ('iter_next', 'iter_next'), ('iter_last', 'iter_last'), ('iter_prev', 'iter_prev')):
-        fn = P.fn(P.slot('Zip', 'Iter', m))
-        g = P.cfg(fn)
+    bad, unsup, ncase = eval_zip(P)
+    ctx.stats['paths'] += ncase
+    for key, oname in (('len', 'Zip_Len'), ('iter_init', 'Zip.iter_init'), ('iter_next', 'Zip.iter_next'), ('iter_last', 'Zip.iter_last'), ('iter_prev', 'Zip.iter_prev')):
+        fn = P.fn(P.slot('Zip', 'Len', 'len') if key == 'len' else P.slot('Zip', 'Iter', key))
         ctx.fn(fn)
-        calls = [(n, c) for (n, c) in g.nodes_calling(cur)]
-        ok = len(calls) == 1 and calls[0][0].get('decl') is not None
-        if ok:
-            v = ('local', calls[0][0]['decl']['name'])
-            tc = [x for x in g.live() if x['kind'] == 'cond' and ir.canon(x['expr']) == ir.canon(('bin', '==', v, ('global', 'Terminal')))]
-            ok = len(tc) == 1 and g.nodes[succ_of(tc[0], True)]['kind'] == 'ret' and ir.canon(g.nodes[succ_of(tc[0], True)]['expr']) == ('global', 'Terminal')
-            # the test follows the call directly inside the loop over all inputs
-            ok = ok and g.must_pass(tc[0]['id'], [calls[0][0]['id']])
-        ctx.check(ok, rule, 'Zip.%s' % m, site(fn), 'as soon as one input is exhausted the zip ends (Terminal), for every input position')
+        if unsup and not bad[key]:
+            ctx.undecided(rule, oname, site(fn), 'the zip leaves the evaluated fragment: ' + unsup)
+        elif key == 'len':
+            ctx.check(bad[key] is None, rule, oname, site(fn), 'the length of a zip is the minimum over all inputs (0..3 inputs of lengths 0..3, every combination evaluated)', [bad[key]] if bad[key] else None)
+        else:
+            ctx.check(bad[key] is None, rule, oname, site(fn), 'walking the zip yields, for k = 0..shortest-1, the tuple of every input\'s k-th element, then Terminal '
+                      '(forwards from iter_init, backwards from iter_last; as soon as one input is exhausted the zip ends)', [bad[key]] if bad[key] else None)
     ctx.floor(rule, 5)
 
 
@@ -920,8 +1000,8 @@ def run(ctx, load):
 EXPLANATION = (
     'Decided: (a) empty-guard — every access through `count - 1` in iter_init/iter_last/pop of the five containers is dominated by a test '
     'that excludes the empty container (decided by evaluating the guard with count = 0); (b) cursor-range — Array iter_next/iter_prev, '
-    'evaluated over concrete geometries, step to the neighbouring element or end with Terminal exactly at the boundary; (c) mirror — List '
-    'and Tree backward cursor functions are the mirror image of the forward ones; (d) direction — Filter/Map/Zip/Slice drive the underlying '
+    'evaluated over concrete geometries, step to the neighbouring element or end with Terminal exactly at the boundary; (c) cursor-walk — the cursor functions of Array, List, Tuple, '
+    'Table and Tree, evaluated on small instances, yield the elements in order forwards and in reverse backwards; (d) direction — Filter/Map/Zip/Slice drive the underlying '
     'iterable only through its cursor functions, in the direction matching the step sign, never through keyed access; (e) slice-bound — '
     'the end of a slice cursor depends on its stop bound (known finding: it does not); (f) zip-shortest — Zip_Len is the minimum and any '
     'exhausted input ends the zip; (g) foreach expansion; (h) len agrees with the emptiness tests of the cursors; (i) List link pairing '
@@ -929,5 +1009,4 @@ EXPLANATION = (
     'index in order before answering Terminal (evaluated for nslots 1..5); (k) cursor-is-scratch — iter_init/iter_last/len/get/mem of Range and '
     'Slice never read the Range cursor before storing it; (l) range-arithmetic, slice-clamp, slice-ends, zip-last-aligned — each small '
     'integer function is evaluated on its own by the analyser (exact C conversions; iterables abstracted to positions) over a finite grid '
-    'and compared with the closed form of the element sequence: bounded evaluation, not a proof for all int64 values. Not decided: Table '
-    'cursor stepping over slot memory; Filter/Map contents (value level).')
+    'and compared with the closed form of the element sequence: bounded evaluation, not a proof for all int64 values. Not decided: Filter/Map contents (value level).')
